@@ -432,14 +432,40 @@ def accumulate_once(fg, res):
                         for o in ops:
                             if o and o["k"] != "const":
                                 stored += fg.operand_nodes(k, o)
-            if not stored:
+            # in-place update through a reference derived from the slot (`if let Some(o) = t[reg].as_mut() { *o ^= x }`)
+            derived = {ptr}
+            grew = True
+            while grew:
+                grew = False
+                for blk in b.blocks:
+                    for st in blk["s"]:
+                        if st["k"] == "assign" and not st["p"]["pr"] and st["p"]["l"] not in derived:
+                            r = st["r"]
+                            src = r["p"]["l"] if r["k"] in ("ref", "rawptr") else (r["o"]["p"]["l"] if r["k"] == "use" and r["o"]["k"] != "const" else None)
+                            if src in derived:
+                                derived.add(st["p"]["l"])
+                                grew = True
+                    ct = blk["t"]
+                    if ct["k"] == "call" and ct["args"] and ct["args"][0]["k"] != "const" and ct["args"][0]["p"]["l"] in derived and ct["d"]["l"] not in derived:
+                        cn = callee_names(ct)
+                        if cn and cn[-1].rsplit("::", 1)[-1] in ("as_mut", "as_deref_mut", "deref_mut", "unwrap", "expect", "get_or_insert", "get_or_insert_with"):
+                            derived.add(ct["d"]["l"])
+                            grew = True
+            inplace = False
+            for blk in b.blocks:
+                for st in blk["s"]:
+                    if st["k"] == "assign" and st["p"]["l"] in derived and st["p"]["l"] != ptr and st["p"]["pr"] and st["r"]["k"] == "bin":
+                        for o in (st["r"]["a"], st["r"]["b"]):
+                            if o["k"] != "const" and o["p"]["l"] in derived:
+                                inplace = True
+            if not stored and not inplace:
                 continue
-            back = fg.backward(stored, node_ok=lambda x: x[0] == k, edge_ok=lambda e: e.kind not in ("alias", "alias_fb", "lcall", "mutarg2"))
-            if not any(x[1] == cont for x in back):
+            back = fg.backward(stored, node_ok=lambda x: x[0] == k, edge_ok=lambda e: e.kind not in ("alias", "alias_fb", "lcall", "mutarg2")) if stored else {}
+            if not inplace and not any(x[1] == cont for x in back):
                 continue   # plain overwrite
             # ... of the *same slot*: some read of the container in that slice is keyed by the same place
             widx = _origin(b, t["args"][1])
-            same = False
+            same = inplace
             bl = {x[1] for x in back}
             for cbi, ct in b.calls():
                 cn = callee_names(ct)
